@@ -1574,9 +1574,13 @@ def run_silent(job):
                 what="client silent in phase '%s' is never dropped (timeout %.1fs%s): it keeps its slot, the next client is not "
                      "served" % (what, T, ", ssl" if use_ssl else ""), conn=cl.c))
             return False
-        steps.append(dict(phase=what, dropped_after=round(now - max(cl.t_accept, t_last), 3),
-                          answer=parse_response(data)[0]))
-        if now < cl.t_accept + T - 0.05:
+        answer = parse_response(data)[0]
+        steps.append(dict(phase=what, dropped_after=round(now - max(cl.t_accept, t_last), 3), answer=answer))
+        if answer not in (0, 408, 500):
+            # the handler answered without waiting for the rest (e.g. an access check before the body is read):
+            # the client was not waited for, nothing to time out
+            steps[-1]["answered_without_waiting"] = True
+        elif now < cl.t_accept + T - 0.05:
             run.fail.append(dict(what="client silent in phase '%s' dropped before the timeout" % what,
                                  after=now - cl.t_accept, timeout=T))
         return True
@@ -1604,7 +1608,7 @@ def run_silent(job):
         if kind == "tcp-no-handshake":
             return cl, time.monotonic()
         tls(cl)                       # blocks until the server side took part: the connection has been accepted
-        path = "/u/x.ics" if verb == "PUT" else "/u/"
+        path = ("/u/x.ics" if verb == "PUT" else "/u/new%d/" % cl.c if verb in ("MKCALENDAR", "MKCOL") else "/u/")
         head = ("%s %s HTTP/1.1\r\nHost: localhost\r\nAuthorization: Basic dTpw\r\nContent-Type: text/xml\r\n"
                 "Content-Length: 200\r\n\r\n" % (verb, path)).encode()
         if kind in ("nothing", "after-handshake"):
